@@ -52,10 +52,10 @@ Definition dump_ok (d : db) (dump : list (key * val)) : bool :=
   && Nat.eqb (length (db_keys dump)) (length dump).
 
 (* the DB after every life of the service (each with its kill point and its node-client failures) *)
-Fixpoint lives (c : chain) (earliest : Z) (d : db) (ls : list slife) : list db :=
+Fixpoint lives (c : chain) (d : db) (ls : list slife) : list db :=
   match ls with
   | [] => []
-  | L :: r => let d' := run_slife c earliest d L in d' :: lives c earliest d' r
+  | L :: r => let d' := run_slife c d L in d' :: lives c d' r
   end.
 
 Fixpoint all2 {A B} (f : A -> B -> bool) (a : list A) (b : list B) : bool :=
@@ -68,7 +68,7 @@ Fixpoint all2 {A B} (f : A -> B -> bool) (a : list A) (b : list B) : bool :=
 Inductive icase :=
 | CIndex (c : chain) (feeds : list Z) (dump : list (key * val)) (last first : Z)
          (by_hash : list (Z * option txres)) (by_idx : list (Z * Z * option txres))
-| CSvc (c : chain) (earliest : Z) (ls : list slife) (dumps : list (list (key * val)))
+| CSvc (c : chain) (ls : list slife) (dumps : list (list (key * val)))
 | CRpc (c : chain)
        (receipts : list (Z * option rview)) (txs : list (Z * option tview))
        (txs_idx : list (Z * Z * option tview)) (blocks : list (Z * bview))
@@ -81,8 +81,8 @@ Definition icase_ok (x : icase) : bool :=
       dump_ok d dump && (last_indexed d =? last) && (first_indexed d =? first)
       && forallb (fun q => opt_eqb txres_eqb (get_by_hash d (fst q)) (snd q)) by_hash
       && forallb (fun q => let '(h, i, o) := q in opt_eqb txres_eqb (get_by_block_index d h i) o) by_idx
-  | CSvc c earliest ls dumps =>
-      all2 dump_ok (lives c earliest [] ls) dumps
+  | CSvc c ls dumps =>
+      all2 dump_ok (lives c [] ls) dumps
   | CRpc c receipts txs txs_idx blocks counts logs =>
       let d := run c in
       (* the hypotheses of the theorems hold of the real consensus results (these chains are not mutated) *)
